@@ -42,6 +42,24 @@ def run(prop, tier, seed, ctx):
             ctx.violation(key_of(m), "after step %d (%s) the real state differs from the specification in %s" % (
                 m["step"], m["action"]["op"], m["fields"]), m)
     ctx.cov["exhaustive"] = True
+    # ---- deep random behaviours (tlc -simulate) over the FULL alphabet (five classes, six message kinds, three
+    # formatters, string parents, two override values): nine calls per behaviour, invariants evaluated by TLC
+    num = 150 if tier == "quick" else 5000
+    res = tlc.run("Lifecycle", "SIM_Lifecycle_deep.cfg", workers=4, timeout=900, simulate="num=%d" % num, extra=["-depth", "12", "-seed", str(1000 + seed)])
+    tlc.require_ok(res, "simulation SIM_Lifecycle_deep.cfg")
+    ctx.add_tlc(res, "simulation (%d behaviours of 9 calls) SIM_Lifecycle_deep.cfg" % (4 * num))
+    uniq = list({json.dumps(r, sort_keys=True): r for r in res.records}.values())
+    if len(uniq) < num:
+        raise MachineryError("simulation exported only %d behaviours" % len(uniq))
+    cases = list(enumerate(uniq))
+    mism = shard_map("bind.lifecycle", "replay_chunk", cases)
+    ctx.cov["replayed_cases"] += len(cases)
+    ctx.cov["traces_validated_against_impl"] += len(cases)
+    ctx.count(len(cases), (json.dumps([h["a"] for h in r["hist"]], sort_keys=True) for _, r in cases))
+    ctx.sample({"kind": "simulated behaviour", "actions": [h["a"] for h in uniq[0]["hist"]]})
+    for m in mism:
+        ctx.violation(key_of(m), "simulated behaviour, after step %d (%s) the real state differs from the specification in %s" % (
+            m["step"], m["action"]["op"], m["fields"]), m)
     for mcfg, inv in (MUTANTS if tier == "thorough" else MUTANTS[:4]):
         mres = tlc.run("Lifecycle", mcfg, workers=8, timeout=600)
         if inv not in mres.violated:
